@@ -668,8 +668,16 @@ impl<'a> Host<'a> {
         };
         self.call_no += 1;
         let keep = self.rng.chance(1, 2);
+        // sometimes the user code takes the value out of the own handles to its own resources (`into_inner`)
+        let into_inner = !down.received_exported.is_empty() && self.rng.chance(1, 3);
+        let keep = keep || into_inner;
+        let drops_before: Vec<u32> = down.received_exported.iter().map(|(_, _, id)| model.dropped.get(id).copied().unwrap_or(0)).collect();
         obs::clear();
-        obs::set_keep(keep);
+        if into_inner {
+            obs::set_into_inner();
+        } else {
+            obs::set_keep(keep);
+        }
         obs::push_script(up.first().map(|x| x.0.clone()).unwrap_or_default());
         self.ctx(f, "call", op);
         let flat: Result<Vec<CoreVal>, String> = with_shared(|sh| {
@@ -792,8 +800,24 @@ impl<'a> Host<'a> {
                 with_res(|s| s.table[*idx as usize] = None);
             }
         }
-        for (rt, idx, id) in &down.received_exported {
+        for (k, (rt, idx, id)) in down.received_exported.iter().enumerate() {
             let live = with_res(|s| matches!(s.table.get(*idx as usize), Some(Some(Entry::Own { .. }))));
+            if into_inner {
+                // the value was taken out and dropped by the user code; the emptied handle was dropped by
+                // `into_inner` itself, and the `[dtor]` that follows must not destroy the value again
+                self.rep.count("into_inner_checks");
+                let d = model.dropped.get(id).copied().unwrap_or(0).saturating_sub(drops_before[k]);
+                if live {
+                    self.res_fail("into-inner", "handle-not-consumed", &format!("`into_inner` on own handle {idx} (object {id}) left the handle in the guest's table"), Some(f));
+                    with_res(|s| s.table[*idx as usize] = None);
+                }
+                if d >= 2 {
+                    self.res_fail("into-inner", "object-destroyed-twice", &format!("the user value {id} taken out with `into_inner` and dropped once was destroyed {d} times (the `[dtor]` of the emptied representation destroyed it again)"), Some(f));
+                } else if d == 0 {
+                    self.res_fail("into-inner", "object-not-destroyed", &format!("the user value {id} taken out with `into_inner` and dropped by the user code was never destroyed"), Some(f));
+                }
+                continue;
+            }
             if keep && live {
                 model.kept_exported.insert((*rt, *id));
             } else if !keep && live {
